@@ -167,6 +167,12 @@ def symbolic_comprehension(interp, e, fr, it, what):
     the same key): dom(q) <=> exists i<n. key(i) == q;  get(q) = val(last(q)), last(q) the largest such index"""
     import ast as _ast
     g = e.generators[0]
+    if it.kind == 'nodedict' and what == 'list' and not g.ifs and isinstance(g.target, _ast.Name) \
+            and isinstance(e.elt, _ast.Name) and e.elt.id == g.target.id:
+        # [k for k in self._node]: the nodes, each once, in unspecified order (a snapshot of the key set)
+        from .loops import VBag
+        NodeIn = it.g['NodeIn']
+        return VBag([Node], lambda a: NodeIn[a], lambda a: VNode(a), note='nodes')
     if it.kind != 'seq' or g.ifs:
         raise Undecided('comprehension over %s' % it.kind)
     ctx = interp.ctx
